@@ -53,6 +53,12 @@ Definition source_wiring_ok : bool :=
   && (length intotorun_cmdargs_calls =? 2)%nat
   && forallb (fun xy => str_eqb (fst xy) (snd xy))
        (combine intotorun_cmdargs_calls [bs "len(cmdArgs)"; bs "RunCommand(cmdArgs, runDir)"])
+  && (length intotorun_byproducts_uses =? 3)%nat   (* nothing rewrites the capture before it is stored *)
+  && forallb (fun xy => str_eqb (fst xy) (snd xy))
+       (combine intotorun_byproducts_uses
+                [bs "byProducts := map[string]interface{}{}";
+                 bs "byProducts, err = RunCommand(cmdArgs, runDir)";
+                 bs "ByProducts: byProducts"])
   && zopt_eqb waiterr_default (-1) && zopt_eqb waiterr_on_nil 0
   && match waiterr_on_exiterror with ExExitStatus => true | _ => false end.
 
